@@ -154,7 +154,7 @@ def opProp (name : String) : String :=
   | "line" | "lineh" => ",C17"
   | "rectv" | "recte" | "circv" | "circe" => ",C16"
   | "vor" => ",C18"
-  | "bary" | "nnw" => ",C19"
+  | "bary" | "nnw" | "baryi" | "nnwi" => ",C19"
   | "refine" => ",C20"
   | "consplit" => ",C13"
   | "con" | "trycon" | "canadd" | "confv" | "confp" | "isect" | "exists" => ",C12"
